@@ -264,6 +264,11 @@ func genBox(t *rapid.T) *Box {
 		b.Min = append(b.Min, model.Of(lo))
 		b.Max = append(b.Max, model.Of(hi))
 	}
+	// RFC 7946 5.2: a box crossing the antimeridian has its west edge greater than
+	// its east edge; the four/six numbers must come back in the positions they had
+	if rapid.IntRange(0, 3).Draw(t, "antimeridian") == 0 {
+		b.Min[0], b.Max[0] = b.Max[0], b.Min[0]
+	}
 	return b
 }
 
